@@ -425,3 +425,12 @@ Fixpoint brun (fuel : nat) (evs : list bevent) (b : bserver) : option bserver :=
   end.
 
 End Bounded.
+
+(* ------------------------------------------------------------------ the code at hand (regenerated constants, gen/gen_consts.py) *)
+
+(* which index the per-field item loop of JettisonOutgoingResults passes to RemoveData in the sources the check runs on *)
+Definition code_jfix : bool := N.eqb c_c07_jettison_removes_item_j 1.
+
+(* which of the three repairs of the shared server model the sources at hand contain *)
+Definition code_fixes : fixes :=
+  mkFixes (N.eqb c_c07_guard_as_found 0) (N.eqb c_c07_cqf_as_found 0) (N.eqb c_c07_push_as_found 0).
